@@ -32,7 +32,7 @@ def run(ctx):
         "return procedures are total functions of kind RetProc (no ListRetProc, no panics/Dyn errors)",
         "token list = what the real tpl/scanner yields for the input (Pos/End passed to the model)",
     ]
-    common.standard(ctx, "GopModel.Props.C29", "c29", 2400, 45000, RULE, driver=_tplm.DRIVER,
+    common.standard(ctx, "GopModel.Props.C29", "c29", 2400, 45000, RULE, driver=_tplm.DRIVER, canon=_tplm.canon,
                     post=lambda c, outdir, dis: _tplm.promote_core_mismatch(c, dis, "semantics", "c29"))
 
 
